@@ -74,6 +74,9 @@ pub struct Req {
     pub pol: ConfPol,
     /// 0 Exclude, 1 PreferUnlocked, 2 PreferLocked
     pub lp_variant: u8,
+    /// the locked-input policy the SELECTOR OBJECT was configured with (documented to govern
+    /// shielding only: a transfer must follow the per-call spend policy): (variant, owner)
+    pub selector_lp: (u8, usize),
     pub lp_owners: BTreeSet<usize>,
     pub lock_req: Option<(usize, u32)>,
     pub amounts: Vec<u64>,
@@ -122,7 +125,7 @@ impl Req {
             "kind": self.kind.name(), "account": self.account,
             "policy": {"trusted": self.pol.trusted, "untrusted": self.pol.untrusted, "zero_conf_shielding": self.pol.zero_conf_shielding},
             "locked_input_policy": (["Exclude", "PreferUnlocked", "PreferLocked"][self.lp_variant as usize]),
-            "lp_owners": self.lp_owners.iter().collect::<Vec<_>>(), "lock_request": self.lock_req,
+            "lp_owners": self.lp_owners.iter().collect::<Vec<_>>(), "lock_request": self.lock_req, "selector_locked_input_policy": [self.selector_lp.0 as usize, self.selector_lp.1],
             "amounts": self.amounts, "recipients": self.rcpts.iter().map(|r| format!("{r:?}")).collect::<Vec<_>>(),
             "pools": self.pools.iter().map(|p| p.name()).collect::<Vec<_>>(), "transparent": self.transparent,
             "multi_change": self.multi_change, "prefer_single": self.prefer_single, "everything": self.everything,
@@ -285,6 +288,7 @@ pub fn random_req(wd: &mut World) -> Req {
         account,
         pol,
         lp_variant,
+        selector_lp: (rng.gen_range(0..3), rng.gen_range(0..3)),
         lp_owners,
         lock_req,
         amounts: vec![],
@@ -424,7 +428,15 @@ pub fn invoke(wd: &mut World, q: &Req) -> Out {
             if q.prefer_single {
                 sp = sp.with_note_selection(NoteSelection::PreferSingle);
             }
-            let sel = GreedyInputSelector::<TestDb>::new();
+            // the selector object may have been configured for shielding with another policy
+            let sel = {
+                let set: BTreeSet<LockOwner> = [owner(q.selector_lp.1)].into_iter().collect();
+                match (q.selector_lp.0, NonEmptyBTreeSet::from_set(set)) {
+                    (1, Some(s)) => GreedyInputSelector::<TestDb>::new().with_locked_input_policy(LockedInputPolicy::PreferUnlocked(s)),
+                    (2, Some(s)) => GreedyInputSelector::<TestDb>::new().with_locked_input_policy(LockedInputPolicy::PreferLocked(s)),
+                    _ => GreedyInputSelector::<TestDb>::new(),
+                }
+            };
             if q.multi_change {
                 let cs = standard::MultiOutputChangeStrategy::<TestDb>::new(
                     StandardFeeRule::Zip317,
